@@ -695,6 +695,8 @@ class Parser:
             fn = "superhelp" if tok.is_exact_type("??") else "help"
             if node is None:
                 node = xonsh_call(f"__xonsh__.{fn}", atom, **tok.loc())
+            elif not isinstance(atom, ast.Name):
+                self.raise_syntax_error_known_location("only a name can follow '.' in a help chain", atom)
             else:
                 node = xonsh_call(
                     f"__xonsh__.{fn}",
